@@ -17,8 +17,11 @@ import (
 	"os"
 	"runtime"
 	"strconv"
+	"strings"
 	"sync"
 )
+
+var shardIdx, shardCnt = 0, 1
 
 type line struct {
 	Fam string          `json:"fam"`
@@ -82,6 +85,11 @@ func main() {
 		}
 		seed, _ := strconv.ParseUint(os.Args[4], 10, 64)
 		jl := &jobList{}
+		for _, a := range os.Args[5:] {
+			if strings.HasPrefix(a, "shard=") {
+				fmt.Sscanf(a, "shard=%d/%d", &shardIdx, &shardCnt)
+			}
+		}
 		par := generate(os.Args[2], os.Args[3], seed, jl)
 		if par <= 0 {
 			par = runtime.NumCPU()
@@ -119,6 +127,22 @@ func replayLine(l line, jl *jobList) bool {
 		}
 		jl.addFlow(sc)
 		return true
+	case "bind":
+		var sc BindScenario
+		if err := json.Unmarshal(l.Sc, &sc); err != nil {
+			fmt.Fprintln(os.Stderr, "bad scenario:", err)
+			os.Exit(2)
+		}
+		jl.addBind(sc)
+		return true
+	case "gbatch":
+		var sc GBatchSc
+		if err := json.Unmarshal(l.Sc, &sc); err != nil {
+			fmt.Fprintln(os.Stderr, "bad scenario:", err)
+			os.Exit(2)
+		}
+		jl.addGBatch(sc, nil)
+		return true
 	}
 	return false
 }
@@ -150,6 +174,13 @@ func generate(prop, tier string, seed uint64, jl *jobList) int {
 		genLeafInjected(r, "fail", jl.addFlow)
 	case "C10":
 		genC10(r, thorough, jl.addFlow)
+	case "C16":
+		genBind(r, thorough, jl.addBind)
+	case "batchseq":
+		genBatchSeq(r, thorough, jl.addFlow)
+	case "gbatch":
+		genGBatch(r, thorough, shardIdx, shardCnt, jl)
+		return 1
 	case "C17":
 		genC17(r, thorough, jl.addFlow)
 	case "C18":
